@@ -1,6 +1,83 @@
 import PgFdr.Json
+import PgFdr.Model.C05
 namespace PgFdr.Driver
 open Lean PgFdr
+
+/-- `{"pil":[[peptide,[n,d],[proteins…]],…], "keys":[[protein, md5hex],…]}` or `null` -/
+def jrazor (j : Option Json) : R (Option C05.Razor) :=
+  match j with
+  | none => pure none
+  | some r => do
+    let pil ← jlist jpepinfo (← jget r "pil")
+    let kvs ← jlist (fun kv => do
+      match kv with
+      | .arr #[k, v] => pure ((← jstr k), (← jstr v))
+      | _ => throw s!"expected [protein, key], got {kv.compress}") (← jget r "keys")
+    pure (some (C05.razorOf pil (fun p => (kvs.lookup p).getD "")))
+
+def ofOptNatAsInt (o : Option Nat) : Json :=
+  match o with
+  | some i => ofNat i
+  | none => ofInt (-1)
+
+/-- `{"op":"collect","groups":…,"pil":…,"razor":null|{…},"suppress":bool}` →
+    `{"evidence":[[[pep,peptide,proteins],…],…],"peps":[…],"rankable":[bool,…]}` or `{"err":…}` -/
+def handleCollect (j : Json) : R Json := do
+  let groups ← jgroups (← jget j "groups")
+  let pil ← jlist jpepinfo (← jget j "pil")
+  let rz ← jrazor (jgetOpt j "razor")
+  let suppress ← jbool (← jget j "suppress")
+  match C05.collectEvidence groups pil rz suppress with
+  | .error e => pure (ofErr e.toString)
+  | .ok (evs, peps) =>
+    pure (obj [("evidence", ofList (ofList ofEvidence) evs),
+               ("peps", ofList ofRat peps),
+               ("rankable", ofList (fun ev => Json.bool (C05.rankable ev)) evs),
+               ("ranked", ofList (fun x => ofStrs x.1) (C05.ranked groups evs))])
+
+/-- `{"op":"idxs","groups":…,"proteins":[…]}` → per listed protein its position (−1 unknown),
+    and the two helper predicates -/
+def handleIdxs (j : Json) : R Json := do
+  let groups ← jgroups (← jget j "groups")
+  let prots ← jstrs (← jget j "proteins")
+  let idxs := C05.groupIdxs groups prots
+  pure (obj [("idxs", ofList ofOptNatAsInt idxs),
+             ("missing", Json.bool (C05.isMissing idxs)),
+             ("shared", Json.bool (C05.isShared idxs))])
+
+/-- `{"op":"razor_pick","razor":{…},"proteins":[…]}` → the retained protein, and for every
+    listed protein the count / best PEP the tie-break used -/
+def handleRazorPick (j : Json) : R Json := do
+  let rz ← jrazor (jgetOpt j "razor")
+  let prots ← jstrs (← jget j "proteins")
+  match rz with
+  | none => throw "razor_pick needs razor data"
+  | some r =>
+    let pick := match C05.razorPick r prots with
+      | some p => Json.str p
+      | none => Json.null
+    pure (obj [("pick", pick),
+               ("counts", ofList (fun p => ofNat (r.count p)) prots),
+               ("best", ofList (fun p => ofRat (r.best p)) prots)])
+
+/-- `{"op":"score","kind":"bestPEP"|"multPEP","evidence":[[pep,peptide,proteins],…]}` →
+    bestPEP: `{"key":[n,d],"minpep":[n,d]|null}` (key = −min PEP, −100 without evidence);
+    multPEP: `{"terms":[PEPs in summation order],"n":count}` -/
+def handleScore (j : Json) : R Json := do
+  let ev ← jlist jevidence (← jget j "evidence")
+  let kind ← jstr (← jget j "kind")
+  if kind == "bestPEP" then
+    let mp := match C05.minPep ev with
+      | some q => ofRat q
+      | none => Json.null
+    pure (obj [("key", ofRat (C05.bestPepKey ev)), ("minpep", mp), ("rankable", Json.bool (C05.rankable ev))])
+  else if kind == "multPEP" then
+    pure (obj [("terms", ofList ofRat (C05.multPepTerms ev)),
+               ("n", ofNat (C05.multPepTerms ev).length),
+               ("rankable", Json.bool (C05.rankable ev))])
+  else throw s!"unknown score kind {kind}"
+
 /-- protocol handlers of property C05: (op name, handler) -/
-def handlersC05 : List (String × (Json → R Json)) := []
+def handlersC05 : List (String × (Json → R Json)) :=
+  [("collect", handleCollect), ("idxs", handleIdxs), ("razor_pick", handleRazorPick), ("score", handleScore)]
 end PgFdr.Driver
